@@ -440,7 +440,15 @@ fn gen_run(el: &[&'static Module], prop: Prop, seed: u64, idx: u64) -> (&'static
     let mut rng = Rng::stream(seed, t, idx);
     // stratified: every module gets its share of runs, in a seed-dependent rotation
     let rot = Rng::stream(seed, t ^ 0x5a5a, 0).next_u64() % el.len() as u64;
-    let m = el[((idx + rot) % el.len() as u64) as usize];
+    let mut m = el[((idx + rot) % el.len() as u64) as usize];
+    // enums of tens of thousands of variants (thorough tier) cost milliseconds per collecting
+    // operation: they get one fiftieth of the share of an ordinary module
+    if m.n() > 5000 && (idx / el.len() as u64) % 50 != 0 {
+        let small: Vec<&'static Module> = el.iter().copied().filter(|x| x.n() <= 5000).collect();
+        if !small.is_empty() {
+            m = small[((idx + rot) % small.len() as u64) as usize];
+        }
+    }
     let (hist, _) = generate(&mut rng, caps(m), prop);
     (m, hist)
 }
